@@ -155,6 +155,86 @@ class Mode:
         return self._rec(name, "discharged" if cond else "failed", backend, 0.0, detail=detail,
                          cex={"env": {k: str(v) for k, v in self.env.items()}} if not cond else None)
 
+    # ---- value-dependent control flow
+    def paths(self, fn, assumptions=(), catch=(Exception,)):
+        """all feasible paths of fn() (symbolic) / the single concrete path (numeric)"""
+        if self.symbolic:
+            from . import paths as P
+
+            ps, stats = P.explore(fn, assumptions, catch=catch)
+            self.path_stats = stats
+            return ps
+        from . import paths as P
+
+        outcome, exc = None, None
+        try:
+            outcome = fn()
+        except catch as e:
+            exc = e
+        return [P.Path([], outcome, exc, [])]
+
+    def atom(self, x, rel, y=0):
+        if self.symbolic:
+            from . import paths as P
+
+            return P.atom(x, rel, y)
+        import operator
+
+        ops = {"<": operator.lt, "<=": operator.le, ">": operator.gt, ">=": operator.ge, "==": operator.eq, "!=": operator.ne}
+        return ("bool", bool(ops[rel](x, y)))
+
+    def f_and(self, *fs):
+        return ("and", list(fs))
+
+    def f_or(self, *fs):
+        return ("or", list(fs))
+
+    def f_not(self, f):
+        return ("not", f)
+
+    def _evalf(self, f):
+        k = f[0]
+        if k == "bool":
+            return f[1]
+        if k == "and":
+            return all(self._evalf(g) for g in f[1])
+        if k == "or":
+            return any(self._evalf(g) for g in f[1])
+        if k == "not":
+            return not self._evalf(f[1])
+        if k == "true":
+            return True
+        raise ValueError(k)
+
+    def implies(self, name, path, concl, detail=""):
+        """obligation: (preconditions and path condition) => concl, by z3"""
+        if self.symbolic:
+            from . import paths as P
+
+            st, model, dt = P.check_implies(path.formulas(), concl)
+            if st == "discharged":
+                return self._rec(name, "discharged", "z3", dt, detail=detail)
+            if st == "failed":
+                return self._rec(name, "failed", "z3", dt, detail=detail, cex={"env": model})
+            return self._rec(name, "undecided", "z3", dt, detail="solver unknown: " + detail)
+        if self.wanted is not None and name != self.wanted:
+            return None
+        ok = self._evalf(concl)
+        return self._rec(name, "discharged" if ok else "failed", "run", 0.0, detail=detail)
+
+    def feasible(self, name, path):
+        """non-vacuity: the path condition (with the preconditions) is satisfiable"""
+        if not self.symbolic:
+            return None
+        from . import paths as P
+
+        r, model, dt = P.check_sat(path.formulas())
+        if r == "sat":
+            return self._rec(name, "discharged", "z3", dt, detail="path condition satisfiable")
+        if r == "unsat":
+            return self._rec(name, "failed", "z3", dt, detail="explored path has an unsatisfiable condition")
+        return self._rec(name, "undecided", "z3", dt, detail="solver unknown on path feasibility")
+
     def undecided(self, name, why):
         return self._rec(name, "undecided", "-", 0.0, detail=why)
 
